@@ -1,0 +1,135 @@
+//go:build verif
+
+package lsm
+
+import (
+	"github.com/feichai0017/NoKV/kv"
+	"github.com/feichai0017/NoKV/lsm/compact"
+	"github.com/feichai0017/NoKV/utils"
+)
+
+// VerifCopy describes one stored copy of a user key (simulation accessor).
+type VerifCopy struct {
+	Where   string // "mem0" (active), "imm<i>", "L<level>", "L<level>-ingest"
+	FileID  uint64
+	Version uint64
+	Meta    byte
+	Value   []byte
+}
+
+// VerifTable describes one installed table.
+type VerifTable struct {
+	Level  int
+	Ingest bool
+	FileID uint64
+	Min    []byte
+	Max    []byte
+}
+
+// VerifCompact runs a single compaction attempt of the requested kind in the caller's goroutine.
+func (lsm *LSM) VerifCompact(id, level int, mode uint8, adjusted float64) error {
+	lm := lsm.levels
+	if level < 0 || level >= lm.opt.MaxLevelNum {
+		return utils.ErrFillTables
+	}
+	return lm.doCompact(id, compact.Priority{
+		Level:      level,
+		Score:      adjusted,
+		Adjusted:   adjusted,
+		Target:     lm.levelTargets(),
+		IngestMode: compact.IngestMode(mode),
+		StatsTag:   "verif",
+	})
+}
+
+// VerifCompactOnce runs one picker-driven compaction attempt as compactor id.
+func (lsm *LSM) VerifCompactOnce(id int) bool {
+	return lsm.levels.compaction.RunOnce(id)
+}
+
+// VerifAdjustThrottle evaluates the L0 write throttle as compactor 0 does.
+func (lsm *LSM) VerifAdjustThrottle() { lsm.levels.AdjustThrottle() }
+
+// VerifThrottle forces the write throttle on or off.
+func (lsm *LSM) VerifThrottle(on bool) { lsm.throttleWrites(on) }
+
+// VerifImmutables returns the number of sealed memtables awaiting flush.
+func (lsm *LSM) VerifImmutables() int {
+	lsm.lock.RLock()
+	defer lsm.lock.RUnlock()
+	return len(lsm.immutables)
+}
+
+// VerifTables lists installed tables per level.
+func (lsm *LSM) VerifTables() []VerifTable {
+	var out []VerifTable
+	for _, lh := range lsm.levels.levels {
+		lh.RLock()
+		for _, t := range lh.tables {
+			out = append(out, VerifTable{Level: lh.levelNum, FileID: t.fid, Min: kv.SafeCopy(nil, t.MinKey()), Max: kv.SafeCopy(nil, t.MaxKey())})
+		}
+		for _, t := range lh.ingest.allTables() {
+			out = append(out, VerifTable{Level: lh.levelNum, Ingest: true, FileID: t.fid, Min: kv.SafeCopy(nil, t.MinKey()), Max: kv.SafeCopy(nil, t.MaxKey())})
+		}
+		lh.RUnlock()
+	}
+	return out
+}
+
+func verifScan(it utils.Iterator, base []byte, where string, fid uint64, out []VerifCopy) []VerifCopy {
+	if it == nil {
+		return out
+	}
+	defer func() { _ = it.Close() }()
+	for it.Rewind(); it.Valid(); it.Next() {
+		item := it.Item()
+		if item == nil || item.Entry() == nil {
+			continue
+		}
+		e := item.Entry()
+		if string(kv.ParseKey(e.Key)) != string(base) {
+			continue
+		}
+		out = append(out, VerifCopy{Where: where, FileID: fid, Version: kv.ParseTs(e.Key), Meta: e.Meta, Value: kv.SafeCopy(nil, e.Value)})
+	}
+	return out
+}
+
+// VerifLocate lists every stored copy (all versions) of the user key of internalKey.
+func (lsm *LSM) VerifLocate(internalKey []byte) []VerifCopy {
+	base := kv.ParseKey(internalKey)
+	var out []VerifCopy
+	tables, release := lsm.GetMemTables()
+	for i, mt := range tables {
+		where := "mem0"
+		if i > 0 {
+			where = "imm" + string(rune('0'+i%10))
+		}
+		out = verifScan(mt.NewIterator(&utils.Options{IsAsc: true}), base, where, uint64(mt.segmentID), out)
+	}
+	if release != nil {
+		release()
+	}
+	for _, lh := range lsm.levels.levels {
+		lh.RLock()
+		main := append([]*table(nil), lh.tables...)
+		ing := append([]*table(nil), lh.ingest.allTables()...)
+		for _, t := range main {
+			t.IncrRef()
+		}
+		for _, t := range ing {
+			t.IncrRef()
+		}
+		lh.RUnlock()
+		lvl := "L" + string(rune('0'+lh.levelNum))
+		for _, t := range main {
+			out = verifScan(t.NewIterator(&utils.Options{IsAsc: true}), base, lvl, t.fid, out)
+			_ = t.DecrRef()
+		}
+		for _, t := range ing {
+			out = verifScan(t.NewIterator(&utils.Options{IsAsc: true}), base, lvl+"-ingest", t.fid, out)
+			_ = t.DecrRef()
+		}
+	}
+	return out
+}
